@@ -15,7 +15,10 @@
  *   - an unterminated quote groups up to the end of the input;
  *   - with an explicit delimiter set only the characters of the set separate tokens;
  *   - word grammar: the text of a quoted word is what stands between the quotes; when no matching quote
- *     follows, the word runs to the end of the input; an unquoted word ends at the next whitespace.
+ *     follows, the word runs to the end of the input; an unquoted word ends at the next whitespace; the next
+ *     word may start right behind a closing quote; in any word a backslash in front of a quote character
+ *     makes that character an ordinary one and is dropped (the same convention as "a backslash makes the
+ *     closing quote literal" of the token grammar; without it a quoted word could not contain its quote).
  *
  * Inputs: every string of length <= VERIF_MAXLEN (default 7) over {a, b, space, ':', ''', '"', '\'}.
  * The terminator of the string is the last byte of its heap block, so that any read past the terminator
@@ -25,10 +28,16 @@
 #define VERIF_C12_REF_H
 
 #ifndef VERIF_MAXLEN
+# ifndef VERIF_MAXLEN_T
+#  define VERIF_MAXLEN_T 7            /* thorough tier: the bound of the property statement */
+# endif
+# ifndef VERIF_MAXLEN_Q
+#  define VERIF_MAXLEN_Q 5            /* quick tier */
+# endif
 # ifdef VERIF_THOROUGH
-#  define VERIF_MAXLEN 7             /* thorough tier: the bound of the property statement */
+#  define VERIF_MAXLEN VERIF_MAXLEN_T
 # else
-#  define VERIF_MAXLEN 5             /* quick tier */
+#  define VERIF_MAXLEN VERIF_MAXLEN_Q
 # endif
 #endif
 #if VERIF_MAXLEN > 7
@@ -163,23 +172,19 @@ static unsigned vr_word_scan(const char *s, unsigned want, char *out)
 {
     unsigned i = 0, k = 0, n;
     for (;;) {
+        char q = 0;
         while (vr_isspace(s[i])) i++;
         if (s[i] == 0) return k;
         k++;
         n = 0;
-        if (s[i] == '\'' || s[i] == '"') {
-            char q = s[i++];
-            while (s[i] != 0 && s[i] != q) {
-                if (k == want) out[n++] = s[i];
-                i++;
-            }
-            if (s[i] == q) i++;
-        } else {
-            while (s[i] != 0 && !vr_isspace(s[i])) {
-                if (k == want) out[n++] = s[i];
-                i++;
-            }
+        if (s[i] == '\'' || s[i] == '"') q = s[i++];        /* the word opens with a quote */
+        while (s[i] != 0 && (q != 0 ? s[i] != q : !vr_isspace(s[i]))) {
+            /* a backslash before a quote character: that character is an ordinary one, the backslash is dropped */
+            if (s[i] == '\\' && (s[i + 1] == '\'' || s[i + 1] == '"')) i++;
+            if (k == want) out[n++] = s[i];
+            i++;
         }
+        if (q != 0 && s[i] == q) i++;                         /* the matching quote */
         if (k == want) { out[n] = 0; return k; }
     }
 }
